@@ -65,6 +65,10 @@ type tokEnv struct {
 	record   bool
 	cfg      chain.M // effective driver configuration (recorded in the Init line)
 	nsSwap   bool    // random issues may use the swap target's min unit as a symbol
+	// owners every symbol has had, as OBSERVED on the chain (roles for negative probing)
+	past map[string]map[string]bool
+	// percentage of random events drawn by probeEvent (probe.go)
+	probePct int
 	// EXACT SCALING (magnitude tier, technique a): every quantity of the IBC denoms
 	// — genesis balances, bank supply, the bound contract's ERC20 balances, the
 	// amounts of SwapToERC20 / SwapFromERC20 / hook events — is K times the model's
@@ -101,6 +105,12 @@ func pickK(spec string) sdkmath.Int {
 
 func isIbc(d string) bool { return strings.HasPrefix(d, "ibc/") }
 
+// plain coins that are no token's and can never be one (Token.tla OddFunded): when the
+// driver cfg lists them among the tracked denoms every user gets `ibc` units of each
+// (unscaled) — the upper-case twin of a min unit, a coin shaped like a liquidity share, a
+// coin of the HTLC module's cross-chain kind
+func isOddCoin(d string) bool { return d == "MAA" || d == "lpt-1" || d == "htltmaa" }
+
 // real amount of `amt` model units of denom d
 func (e *tokEnv) realAmt(d string, amt int64) sdkmath.Int {
 	if isIbc(d) {
@@ -113,11 +123,13 @@ func newTokEnv(fl *drv.Flags) *tokEnv {
 	e := &tokEnv{
 		names:    map[string]string{},
 		off:      map[string]sdkmath.Int{},
+		past:     map[string]map[string]bool{},
 		taxDen:   fl.CfgInt("taxden", 5),
 		mintDen:  fl.CfgInt("mintden", 2),
 		perBlock: int(fl.CfgInt("perblock", 2)),
 		record:   os.Getenv("VERIF_RECORD_DIR") != "",
 		nsSwap:   fl.CfgInt("nsswap", 1) == 1,
+		probePct: int(fl.CfgInt("probe", 0)),
 	}
 	for i := int64(1); i <= fl.CfgInt("users", 3); i++ {
 		e.users = append(e.users, fmt.Sprintf("u%d", i))
@@ -137,13 +149,25 @@ func newTokEnv(fl *drv.Flags) *tokEnv {
 		"mintden": fmt.Sprint(e.mintDen), "regin": fl.CfgStr("regin", ""), "regout": fl.CfgStr("regout", ""),
 		"regrn": fmt.Sprint(fl.CfgInt("regrn", 1)), "regrd": fmt.Sprint(fl.CfgInt("regrd", 1)),
 		"nsswap": fmt.Sprint(fl.CfgInt("nsswap", 1)), "ibc": fmt.Sprint(fl.CfgInt("ibc", 0)), "kscale": e.k.String()}
+	// everything else the driver was given (bundle, epilogue, perblock, ...) is part of the
+	// effective configuration too: a history cut out of a trace is replayed under the
+	// Init line's cfg, and chain.New reads the bundling percentage from chain.DriverCfg
+	for k, v := range fl.Cfg {
+		if _, ok := e.cfg[k]; !ok {
+			e.cfg[k] = v
+		}
+	}
+	chain.DriverCfg = e.cfgString()
 	accts := map[string]string{}
 	initIbc := fl.CfgInt("ibc", 0)
 	for _, u := range e.users {
 		accts[u] = fmt.Sprintf("%d%s", initStake, stake)
 		for _, d := range e.minUnits {
-			if strings.HasPrefix(d, "ibc/") && initIbc > 0 {
+			if isIbc(d) && initIbc > 0 {
 				accts[u] += fmt.Sprintf(",%s%s", e.k.MulRaw(initIbc), d)
+			}
+			if isOddCoin(d) && initIbc > 0 {
+				accts[u] += fmt.Sprintf(",%d%s", initIbc, d)
 			}
 		}
 	}
@@ -305,6 +329,14 @@ func (e *tokEnv) project(ctx sdk.Context) any {
 			native = e.contractName(t.Contract)
 			continue
 		}
+		if !e.tracked(t.MinUnit) {
+			// a token whose coin is outside the tracked denoms cannot be shown (the balance
+			// sheet is a closed universe; the unchanged tree refuses every such issue the
+			// drivers attempt): it is left out and counted, so that the step is reported as
+			// not representable (Cnn_ScaleExact) and everything else is still judged
+			inexact++
+			continue
+		}
 		tok[t.Symbol] = chain.M{
 			"minUnit": t.MinUnit, "scale": int64(t.Scale), "max": smu(t.MaxSupply), "mintable": t.Mintable,
 			"owner": e.nameOf(t.Owner), "initial": smu(t.InitialSupply), "contract": e.contractName(t.Contract),
@@ -317,7 +349,7 @@ func (e *tokEnv) project(ctx sdk.Context) any {
 		mu := string(it.Key()[len(tokentypes.PrefixTokenForMinUint):])
 		var sym gogotypes.StringValue
 		c.App.AppCodec().MustUnmarshal(it.Value(), &sym)
-		if mu == stake {
+		if mu == stake || !e.tracked(mu) {
 			continue
 		}
 		byMin[mu] = sym.Value
@@ -355,16 +387,6 @@ func (e *tokEnv) project(ctx sdk.Context) any {
 	supply := chain.M{}
 	for _, d := range e.denoms() {
 		supply[d] = smk(d, c.Supply(ctx, d).Sub(e.off[d]))
-	}
-	// any token whose min unit is outside the tracked universe cannot be shown
-	for mu := range byMin {
-		found := false
-		for _, d := range e.minUnits {
-			found = found || d == mu
-		}
-		if !found {
-			inexact++
-		}
 	}
 	p := k.GetParams(ctx)
 	frac := func(d sdkmath.LegacyDec, den int64) int64 {
@@ -522,7 +544,12 @@ func isBetweenBlocks(name string) bool {
 
 // feeQuote asks the chain's own fee functions before the message (the fee
 // amount formula uses floats and is not modelled; DESIGN 8 C09).
-func (e *tokEnv) feeQuote(ev chain.M, symOf map[string]string) int64 {
+func (e *tokEnv) feeQuote(ev chain.M, symOf map[string]string) (fee int64) {
+	defer func() {
+		if r := recover(); r != nil { // (a one-letter name: the fee factor is 0)
+			fee = 0
+		}
+	}()
 	ctx := e.c.Ctx()
 	k := e.c.K.Token
 	switch chain.Str(ev, "name") {
@@ -556,9 +583,9 @@ func (e *tokEnv) feeQuote(ev chain.M, symOf map[string]string) int64 {
 // the issues pending in the current block
 func (e *tokEnv) symOf(pending []chain.M) map[string]string {
 	out := map[string]string{stake: stake}
-	if by, ok := e.last["byMinUnit"].(chain.M); ok {
-		for mu, s := range by {
-			out[mu] = s.(string)
+	for mu, s := range sub(e.last, "byMinUnit") {
+		if sy, ok := s.(string); ok {
+			out[mu] = sy
 		}
 	}
 	for _, ev := range pending {
@@ -613,11 +640,11 @@ func (e *tokEnv) runBlock(pending []chain.M, w *chain.TraceWriter) {
 			st = e.last
 		}
 		w.Write(ev, st)
-		e.last = st.(chain.M)
+		e.setLast(st)
 	}
 	// the committed state must equal the state after the last transaction (the
 	// token module has no block handlers; the fee pool is tracked as a sum)
-	e.last = res.EndState.(chain.M)
+	e.setLast(res.EndState)
 }
 
 func swapFeeResult(r chain.TxResult) (burn, mint int64) {
@@ -647,7 +674,8 @@ func (e *tokEnv) runBetween(ev chain.M, w *chain.TraceWriter) {
 	c := e.c
 	switch chain.Str(ev, "name") {
 	case "Deploy":
-		ok, pan, _ := c.Authority(&v1.MsgDeployERC20{Symbol: orDefault(chain.Str(ev, "sym"), "zzz"), Name: "n",
+		// ev.to = evrevert: the contract is NAMED evrevert, whose creation the harness EVM reverts
+		ok, pan, _ := c.Authority(&v1.MsgDeployERC20{Symbol: orDefault(chain.Str(ev, "sym"), "zzz"), Name: orDefault(chain.Str(ev, "to"), "n"),
 			Scale: uint32(chain.Num(ev, "scale")), MinUnit: chain.Str(ev, "mu"), Authority: chain.GovAuthority()})
 		ev["ok"], ev["panic"] = ok, pan
 	case "Upgrade":
@@ -658,7 +686,7 @@ func (e *tokEnv) runBetween(ev chain.M, w *chain.TraceWriter) {
 		ok, pan, _ := c.Authority(&v1.MsgUpgradeERC20{Implementation: impl, Authority: chain.GovAuthority()})
 		ev["ok"], ev["panic"] = ok, pan
 	case "SetParams":
-		p := ev["p"].(chain.M)
+		p := sub(ev, "p")
 		num := func(k string) int64 { return chain.Num(p, k) }
 		if num("taxDen") != e.taxDen || num("mintDen") != e.mintDen {
 			// the projection reports the rates over fixed denominators
@@ -687,7 +715,7 @@ func (e *tokEnv) runBetween(ev chain.M, w *chain.TraceWriter) {
 		w.Write(ev, e.last)
 		return
 	}
-	e.last = e.project(c.Ctx()).(chain.M)
+	e.setLast(e.project(c.Ctx()))
 	w.Write(ev, e.last)
 }
 
@@ -720,8 +748,8 @@ func (e *tokEnv) hook(ev chain.M) (ok, panicked bool) {
 	if contract == "" {
 		return false, false
 	}
-	to := ""
-	if a := e.addrOf(chain.Str(ev, "to")); a != nil {
+	to := chain.Str(ev, "to") // a name that is no account's goes into the event as it is (no bech32 address)
+	if a := e.addrOf(to); a != nil {
 		to = a.String()
 	}
 	ctx, write := c.Ctx().CacheContext()
@@ -764,10 +792,16 @@ func (e *tokEnv) hookForged(ev chain.M, variant string) (ok, panicked bool) {
 	if variant == "unbound" {
 		addr = foreignContract
 	}
-	if variant == "badto" {
+	amount := big.NewInt(1)
+	switch variant {
+	case "badto":
 		to = "notbech32"
+	case "emptyto":
+		to = ""
+	case "zeroamt":
+		amount = big.NewInt(0)
 	}
-	lg, err := evmledger.ForgedLog(addr, from, to, big.NewInt(1))
+	lg, err := evmledger.ForgedLog(addr, from, to, amount)
 	if err != nil {
 		return false, false
 	}
@@ -884,6 +918,9 @@ func tokRun(fl *drv.Flags, beh []chain.M, w *chain.TraceWriter) {
 	e := newTokEnv(fl)
 	e.start(w)
 	e.exec(beh, w)
+	if fl.CfgInt("epilogue", 1) == 1 && !e.record {
+		e.epilogue(w)
+	}
 }
 
 // start writes the Init line.  The line records the effective driver
@@ -891,13 +928,44 @@ func tokRun(fl *drv.Flags, beh []chain.M, w *chain.TraceWriter) {
 // trace — random histories draw their own configuration — is replayed on an
 // identically configured chain.
 func (e *tokEnv) start(w *chain.TraceWriter) {
+	chain.DriverCfg = e.cfgString()
+	e.setLast(e.project(e.c.Ctx()))
+	w.Write(tokEvent("Init"), e.last)
+}
+
+func (e *tokEnv) cfgString() string {
 	var kv []string
 	for _, k := range chain.SortedKeys(e.cfg) {
 		kv = append(kv, fmt.Sprintf("%s=%v", k, e.cfg[k]))
 	}
-	chain.DriverCfg = strings.Join(kv, ",")
-	e.last = e.project(e.c.Ctx()).(chain.M)
-	w.Write(tokEvent("Init"), e.last)
+	return strings.Join(kv, ",")
+}
+
+// setLast records the last OBSERVED state (everything the random driver and the
+// epilogue decide is read from it) and the owners seen so far.
+func (e *tokEnv) setLast(st any) {
+	m, ok := st.(chain.M)
+	if !ok {
+		return
+	}
+	e.last = m
+	for sym, t := range sub(m, "tok") {
+		if tm, ok := t.(chain.M); ok {
+			if e.past[sym] == nil {
+				e.past[sym] = map[string]bool{}
+			}
+			e.past[sym][chain.Str(tm, "owner")] = true
+		}
+	}
+}
+
+// sub reads a nested object of a projected state leniently (a broken tree may
+// produce states a driver did not expect; it must not die on them).
+func sub(m chain.M, k string) chain.M {
+	if v, ok := m[k].(chain.M); ok {
+		return v
+	}
+	return chain.M{}
 }
 
 // exec runs events: user messages are grouped perBlock to a block; authority
@@ -986,7 +1054,9 @@ func tokRandom(fl *drv.Flags, rng *rand.Rand, w *chain.TraceWriter) {
 	}
 	set("users", "3")
 	set("quirks", "1")
-	set("minunits", "maa:mbb:mcc:ibc/x1")
+	// (MAA: a plain coin every user holds that is no token's — the upper-case twin of a min
+	// unit; name64: a min unit at the length limit)
+	set("minunits", "maa:mbb:mcc:ibc/x1:MAA:htltmaa:"+name64)
 	set("ibc", "20")
 	set("kscale", "auto")
 	set("stake", "400")
@@ -1001,6 +1071,7 @@ func tokRandom(fl *drv.Flags, rng *rand.Rand, w *chain.TraceWriter) {
 	set("regout", "mbb")
 	set("regrn", fmt.Sprint(r.n))
 	set("regrd", fmt.Sprint(r.d))
+	set("probe", "25")
 	fl2 := &drv.Flags{Cfg: cfg}
 	e := newTokEnv(fl2)
 	e.start(w)
@@ -1016,6 +1087,9 @@ func tokRandom(fl *drv.Flags, rng *rand.Rand, w *chain.TraceWriter) {
 		}
 		e.perBlock = 1 + rng.Intn(3)
 		e.exec(evs, w)
+	}
+	if fl2.CfgInt("epilogue", 1) == 1 && !e.record {
+		e.epilogue(w)
 	}
 }
 
@@ -1035,11 +1109,18 @@ func (e *tokEnv) crossNames() []string {
 
 func (e *tokEnv) randomEvent(rng *rand.Rand, normal []string) chain.M {
 	st := e.last
-	tok := st["tok"].(chain.M)
+	tok := sub(st, "tok")
 	syms := chain.SortedKeys(tok)
-	bal := st["bal"].(chain.M)
-	supply := st["supply"].(chain.M)
-	erc := st["erc"].(chain.M)
+	bal := sub(st, "bal")
+	supply := sub(st, "supply")
+	erc := sub(st, "erc")
+	// negative probing: every message type on every token, by every role, with
+	// identifiers of the wrong kind, amounts at 0 / 1 / the bounds, odd receivers
+	if rng.Intn(100) < e.probePct {
+		if ev := e.probeEvent(rng); ev != nil {
+			return ev
+		}
+	}
 	anyUser := func() string {
 		if rng.Intn(6) == 0 {
 			return pick(rng, e.users)
@@ -1051,11 +1132,11 @@ func (e *tokEnv) randomEvent(rng *rand.Rand, normal []string) chain.M {
 			return "", nil
 		}
 		s := pick(rng, syms)
-		return s, tok[s].(chain.M)
+		return s, sub(tok, s)
 	}
 	ownerOr := func(t chain.M, pOwner int) string {
 		if rng.Intn(100) < pOwner {
-			if o := t["owner"].(string); e.addrOf(o) != nil && o != "token" && o != "feepool" {
+			if o := chain.Str(t, "owner"); e.addrOf(o) != nil && o != "token" && o != "feepool" {
 				return o
 			}
 		}
@@ -1066,7 +1147,7 @@ func (e *tokEnv) randomEvent(rng *rand.Rand, normal []string) chain.M {
 			return pick(rng, append([]string{stake, "nope"}, e.minUnits...))
 		}
 		if _, t := tokenOf(); t != nil {
-			return t["minUnit"].(string)
+			return chain.Str(t, "minUnit")
 		}
 		return pick(rng, e.minUnits)
 	}
@@ -1080,7 +1161,7 @@ func (e *tokEnv) randomEvent(rng *rand.Rand, normal []string) chain.M {
 	// a name that is the symbol of token A and the min unit of another token B:
 	// A's owner acts on the coin (resolved by min unit -> B), B's owner acts on the
 	// symbol (resolved by symbol -> A)
-	byMin := st["byMinUnit"].(chain.M)
+	byMin := sub(st, "byMinUnit")
 	var shared []string
 	for _, sname := range syms {
 		if other, ok := byMin[sname].(string); ok && other != sname {
@@ -1089,8 +1170,8 @@ func (e *tokEnv) randomEvent(rng *rand.Rand, normal []string) chain.M {
 	}
 	if len(shared) > 0 && rng.Intn(6) == 0 {
 		name := pick(rng, shared)
-		a := tok[name].(chain.M)                 // symbol = name
-		b := tok[byMin[name].(string)].(chain.M) // min unit = name
+		a := sub(tok, name)                   // symbol = name
+		b := sub(tok, chain.Str(byMin, name)) // min unit = name
 		// signers must be user accounts (a token may be owned by the module account)
 		aOwner, bOwner := ownerOr(a, 100), ownerOr(b, 100)
 		switch rng.Intn(5) {
@@ -1158,8 +1239,8 @@ func (e *tokEnv) randomEvent(rng *rand.Rand, normal []string) chain.M {
 		ev := tokEvent("Edit")
 		ev["who"] = ownerOr(t, 80)
 		ev["sym"] = s
-		sup := supply[t["minUnit"].(string)].(int64)
-		p := pow10(t["scale"].(int64))
+		sup := chain.Num(supply, chain.Str(t, "minUnit"))
+		p := pow10(chain.Num(t, "scale"))
 		switch rng.Intn(5) {
 		case 0:
 			ev["max"] = int64(0)
@@ -1178,9 +1259,9 @@ func (e *tokEnv) randomEvent(rng *rand.Rand, normal []string) chain.M {
 		_, t := tokenOf()
 		ev := tokEvent("Mint")
 		ev["who"] = ownerOr(t, 85)
-		mu := t["minUnit"].(string)
+		mu := chain.Str(t, "minUnit")
 		ev["mu"] = mu
-		room := t["max"].(int64)*pow10(t["scale"].(int64)) - supply[mu].(int64)
+		room := chain.Num(t, "max")*pow10(chain.Num(t, "scale")) - chain.Num(supply, mu)
 		switch rng.Intn(5) {
 		case 0:
 			ev["amt"] = near(room)
@@ -1195,7 +1276,7 @@ func (e *tokEnv) randomEvent(rng *rand.Rand, normal []string) chain.M {
 				ev["amt"] = int64(1 + rng.Intn(5))
 			}
 		}
-		if ev["amt"].(int64) > 1<<28 || ev["amt"].(int64) <= 0 {
+		if chain.Num(ev, "amt") > 1<<28 || chain.Num(ev, "amt") <= 0 {
 			ev["amt"] = int64(1 + rng.Intn(50))
 		}
 		ev["to"] = pick(rng, []string{"", "", "u1", "u2", "u3", "feepool", evmledger.QuirkShort})
@@ -1219,7 +1300,7 @@ func (e *tokEnv) randomEvent(rng *rand.Rand, normal []string) chain.M {
 		default:
 			ev["amt"] = have
 		}
-		if mu == stake && ev["amt"].(int64) > 20 {
+		if mu == stake && chain.Num(ev, "amt") > 20 {
 			ev["amt"] = int64(1 + rng.Intn(20))
 		}
 		return ev
@@ -1252,9 +1333,9 @@ func (e *tokEnv) randomEvent(rng *rand.Rand, normal []string) chain.M {
 	case x < 76:
 		ev := tokEvent("Deploy")
 		_, t := tokenOf()
-		ev["mu"] = t["minUnit"].(string)
+		ev["mu"] = chain.Str(t, "minUnit")
 		ev["sym"] = pick(rng, symbolPool)
-		ev["scale"] = t["scale"].(int64)
+		ev["scale"] = chain.Num(t, "scale")
 		// the native token, an IBC denom (a token is created for it), an unknown name
 		switch rng.Intn(10) {
 		case 0:
@@ -1273,6 +1354,29 @@ func (e *tokEnv) randomEvent(rng *rand.Rand, normal []string) chain.M {
 		mu := muPool()
 		if rng.Intn(5) == 0 {
 			mu = pick(rng, append([]string{stake}, e.minUnits...))
+		}
+		// two times out of three: a coin that IS bound to a contract, sent by somebody
+		// who holds it (if nothing is bound yet, a deployment comes first)
+		if rng.Intn(3) > 0 {
+			bound := e.boundCoins()
+			if len(bound) == 0 {
+				if _, t := tokenOf(); t != nil {
+					dep := tokEvent("Deploy")
+					dep["mu"], dep["sym"], dep["scale"] = chain.Str(t, "minUnit"), pick(rng, symbolPool), chain.Num(t, "scale")
+					return dep
+				}
+			} else {
+				mu = pick(rng, bound)
+				var holders []string
+				for _, u := range e.users {
+					if chain.Num(sub(bal, u), mu) > 0 {
+						holders = append(holders, u)
+					}
+				}
+				if len(holders) > 0 {
+					who = pick(rng, holders)
+				}
+			}
 		}
 		ev["who"], ev["mu"] = who, mu
 		have := int64(0)
@@ -1302,19 +1406,36 @@ func (e *tokEnv) randomEvent(rng *rand.Rand, normal []string) chain.M {
 		if rng.Intn(5) == 0 {
 			mu = pick(rng, append([]string{stake}, e.minUnits...))
 		}
+		// two times out of three: somebody who really holds ERC20 tokens of a bound contract
+		if rng.Intn(3) > 0 {
+			type holding struct{ mu, who string }
+			var hs []holding
+			for _, d := range e.boundCoins() {
+				row := sub(erc, e.contractOfCoin(d))
+				for _, h := range chain.SortedKeys(row) {
+					if chain.Num(row, h) > 0 && (h != extName || name == "Hook") {
+						hs = append(hs, holding{d, h})
+					}
+				}
+			}
+			if len(hs) > 0 {
+				h := pick(rng, hs)
+				mu, who = h.mu, h.who
+			}
+		}
 		ev["who"], ev["mu"] = who, mu
 		if name == "Hook" && rng.Intn(3) == 0 {
 			// a log no bound contract's swapToNative produced
-			ev["sym"] = pick(rng, []string{"unbound", "topics2", "otherevent", "badto", "baddata"})
+			ev["sym"] = pick(rng, []string{"unbound", "topics2", "otherevent", "badto", "baddata", "emptyto", "zeroamt"})
 			ev["who"], ev["to"], ev["amt"] = extName, "u1", int64(1)
 			return ev
 		}
 		have := int64(0)
 		cname := ""
 		if mu == stake {
-			cname, _ = st["native"].(string)
-		} else if s, ok := st["byMinUnit"].(chain.M)[mu].(string); ok {
-			cname = tok[s].(chain.M)["contract"].(string)
+			cname = chain.Str(st, "native")
+		} else if s, ok := byMin[mu].(string); ok {
+			cname = chain.Str(sub(tok, s), "contract")
 		}
 		if cname != "" {
 			if row, ok := erc[cname].(chain.M); ok {
@@ -1339,14 +1460,14 @@ func (e *tokEnv) randomEvent(rng *rand.Rand, normal []string) chain.M {
 		return ev
 	case x < 97:
 		ev := tokEvent("SetParams")
-		p := chain.CopyM(st["params"].(chain.M))
+		p := chain.CopyM(sub(st, "params"))
 		switch rng.Intn(4) {
 		case 0:
-			p["erc20"] = !p["erc20"].(bool)
+			p["erc20"] = !chain.Bool(p, "erc20")
 		case 1:
-			p["taxNum"] = rng.Int63n(p["taxDen"].(int64) + 1)
+			p["taxNum"] = rng.Int63n(chain.Num(p, "taxDen") + 1)
 		case 2:
-			p["mintNum"] = rng.Int63n(p["mintDen"].(int64) + 1)
+			p["mintNum"] = rng.Int63n(chain.Num(p, "mintDen") + 1)
 		default:
 			p["baseFee"] = pick(rng, []int64{1, 7, 60, 100})
 		}
@@ -1359,7 +1480,7 @@ func (e *tokEnv) randomEvent(rng *rand.Rand, normal []string) chain.M {
 			ev["rn"], ev["rd"] = r.n, r.d
 			ev["sin"], ev["sout"] = int64(rng.Intn(4)), int64(rng.Intn(4))
 			ev["amt"] = rng.Int63n(400)
-			if rowFits(ev["amt"].(int64), r.n, r.d, ev["sin"].(int64), ev["sout"].(int64)) {
+			if rowFits(chain.Num(ev, "amt"), r.n, r.d, chain.Num(ev, "sin"), chain.Num(ev, "sout")) {
 				return ev
 			}
 		}
@@ -1368,3 +1489,28 @@ func (e *tokEnv) randomEvent(rng *rand.Rand, normal []string) chain.M {
 }
 
 var _ = sort.Strings
+
+// boundCoins lists the coins that are bound to an ERC20 contract in the last observed state.
+func (e *tokEnv) boundCoins() []string {
+	var out []string
+	if chain.Str(e.last, "native") != "" {
+		out = append(out, stake)
+	}
+	tok := sub(e.last, "tok")
+	for _, y := range chain.SortedKeys(tok) {
+		if t := sub(tok, y); chain.Str(t, "contract") != "" {
+			out = append(out, chain.Str(t, "minUnit"))
+		}
+	}
+	return out
+}
+
+func (e *tokEnv) contractOfCoin(d string) string {
+	if d == stake {
+		return chain.Str(e.last, "native")
+	}
+	if y, ok := sub(e.last, "byMinUnit")[d].(string); ok {
+		return chain.Str(sub(sub(e.last, "tok"), y), "contract")
+	}
+	return ""
+}
